@@ -1239,9 +1239,16 @@ def resume_findings(case, n, cuts=None, double=False, max_findings=3):
     A = plumbing.build_sampler(case, case.seed, mA)
     A.start_position = plumbing.start_positions(case)
     saved = {}
+    held = {}
+    lazy = case.seed % 2 == 1        # the state OBJECT is kept and only serialised after the run went on
     for k in range(1, n + 1):
         A.run(1)
-        saved[k] = pickle.dumps(A.state)
+        if lazy:
+            held[k] = A.state
+        else:
+            saved[k] = pickle.dumps(A.state)
+    for k in held:
+        saved[k] = pickle.dumps(held[k])
     ref = _hist(A, params)
     final = _state_digest(pickle.loads(saved[n]))
     ncuts = 0
